@@ -49,7 +49,7 @@ class Ctx:
         return out
 
     # ----------------------------------------------------------------- TLC
-    def tlc(self, module, cfg, env=None, workers=8, timeout=900, extra=(), deque=False):
+    def tlc(self, module, cfg, env=None, workers=8, timeout=900, extra=(), deque=False, cfg_text=None):
         """Run TLC in a scratch copy of the spec directory.  Returns the parsed
         result; raises Broken on timeouts / TLC errors that are not property
         results."""
@@ -57,6 +57,9 @@ class Ctx:
         d = os.path.join(self.work, "tlc%d" % self.tlc_n)
         shutil.copytree(SPEC, d)
         os.makedirs(os.path.join(d, "tmp"), exist_ok=True)
+        if cfg_text is not None:
+            with open(os.path.join(d, cfg), "w") as f:
+                f.write(cfg_text)
         e = dict(os.environ)
         jto = "-Xss512m -Djava.io.tmpdir=%s/tmp" % d
         if deque:
@@ -119,6 +122,54 @@ class Ctx:
             raise Broken("specification %s/%s does not satisfy its own properties (%s); see %s" %
                          (module, cfg, r["inv"], r["dir"]))
         return r
+
+    def generate(self, module, cfg_name, cfg_text, out, simulate=None, workers=8, timeout=900, limit=None):
+        """Behaviour generation: run a Gen_* module whose CONSTRAINT prints
+        <<"HIST", json>> lines; write the distinct histories to `out'."""
+        extra = []
+        if simulate:
+            num, depth = simulate
+            extra = ["-simulate", "num=%d" % num, "-depth", str(depth), "-seed", str(self.seed)]
+            workers = 1
+        self.tlc_n += 1
+        d = os.path.join(self.work, "tlc%d" % self.tlc_n)
+        shutil.copytree(SPEC, d)
+        os.makedirs(os.path.join(d, "tmp"), exist_ok=True)
+        with open(os.path.join(d, cfg_name), "w") as f:
+            f.write(cfg_text)
+        cmd = ["java", "-XX:+UseParallelGC", "-Xss1g", "-Djava.io.tmpdir=%s/tmp" % d, "-cp",
+               "/opt/veriftools/tla/tla2tools.jar:/opt/veriftools/tla/CommunityModules-deps.jar", "tlc2.TLC",
+               "-workers", str(workers), "-noGenerateSpecTE", "-metadir", os.path.join(d, "meta"),
+               "-config", cfg_name] + extra + [module]
+        try:
+            p = subprocess.run(cmd, cwd=d, capture_output=True, text=True, timeout=timeout)
+        except subprocess.TimeoutExpired:
+            subprocess.run(["pkill", "-f", "tlc2.TL[C]"])
+            raise Broken("TLC generation timed out on %s" % module)
+        seen = set()
+        n = 0
+        with open(out, "w") as f:
+            for line in p.stdout.splitlines():
+                m = re.match(r'<<"HIST", (".*")>>$', line.strip())
+                if m:
+                    h = json.loads(m.group(1))
+                    if h not in seen:
+                        seen.add(h)
+                        f.write(h + "\n")
+                        n += 1
+                        if limit and n >= limit:
+                            break
+        if "Invariant" in p.stdout and "violated" in p.stdout:
+            raise Broken("generator %s violates its own invariant:\n%s" % (module, "\n".join(p.stdout.splitlines()[-30:])))
+        if n == 0:
+            raise Broken("generator %s produced no behaviours:\n%s" % (module, "\n".join((p.stdout + p.stderr).splitlines()[-30:])))
+        m = re.search(r"(\d+) states generated, (\d+) distinct states found", p.stdout)
+        if m and not simulate:
+            self.mc.append(dict(module=module, cfg=cfg_name, states=int(m.group(2)), transitions=int(m.group(1)),
+                                depth=0, wall_s=0, ok=True, violated=None, role="behaviour generation (exhaustive to the depth bound)"))
+        shutil.rmtree(d, ignore_errors=True)
+        self.coverage_extra["behaviours_generated"] = self.coverage_extra.get("behaviours_generated", 0) + n
+        return n
 
     # -------------------------------------------------------------- driver
     def drive(self, args, timeout=900, allow_poison=True):
